@@ -179,7 +179,9 @@ pub fn confirm_and_minimise(exe: &Path, vf: &Path, dest: &Path) -> Option<Confir
     let clause = j.get("clause").and_then(|v| v.as_str()).unwrap_or("").to_string();
     let (code, _) = run_status(exe, &["replay", vf.to_str()?, "--quiet"]);
     if code != Some(1) {
-        return None;
+        // Not reproducible alone: the run may depend on process-global residue left by the
+        // worlds the same worker executed before it. Replay unit becomes (prefix worlds, world).
+        return confirm_with_prefix(exe, &j, vf, dest, property, clause);
     }
     let tmp = dest.with_extension("min.tmp");
     let (scode, sout) = run_status(exe, &["shrink", vf.to_str()?, tmp.to_str()?]);
@@ -194,6 +196,69 @@ pub fn confirm_and_minimise(exe: &Path, vf: &Path, dest: &Path) -> Option<Confir
     let _ = std::fs::remove_file(&tmp);
     // keep the unminimised but confirmed file
     std::fs::copy(vf, dest).ok()?;
+    Some(Confirmed { path: dest.to_path_buf(), property, clause, minimised: false })
+}
+
+fn confirm_with_prefix(exe: &Path, j: &J, vf: &Path, dest: &Path, property: String, clause: String) -> Option<Confirmed> {
+    let first = j.get("worker").and_then(|w| w.get("first")).and_then(|v| v.as_u64())?;
+    let stride = j.get("worker").and_then(|w| w.get("stride")).and_then(|v| v.as_u64())?.max(1);
+    let run = j.get("run").and_then(|v| v.as_u64())?;
+    let mut runs: Vec<u64> = Vec::new();
+    let mut r = first;
+    while r < run {
+        runs.push(r);
+        r += stride;
+    }
+    if runs.is_empty() {
+        return None;
+    }
+    let tmp = dest.with_extension("prefix.tmp");
+    let try_prefix = |runs: &[u64]| -> bool {
+        let mut jj = j.clone();
+        jj.put("prefix", J::obj().set("runs", J::Arr(runs.iter().map(|r| J::u(*r)).collect())));
+        if std::fs::write(&tmp, jj.to_pretty()).is_err() {
+            return false;
+        }
+        run_status(exe, &["replay", tmp.to_str().unwrap_or(""), "--quiet"]).0 == Some(1)
+    };
+    if !try_prefix(&runs) {
+        let _ = std::fs::remove_file(&tmp);
+        return None;
+    }
+    // delta-debug the prefix: drop chunks of earlier worlds while the violation persists
+    let t0 = Instant::now();
+    let mut spawns = 0;
+    let mut chunk = (runs.len() / 2).max(1);
+    loop {
+        let mut i = 0;
+        while i < runs.len() && spawns < 400 && t0.elapsed().as_secs() < 240 {
+            let mut cand = runs.clone();
+            let end = (i + chunk).min(cand.len());
+            cand.drain(i..end);
+            spawns += 1;
+            if try_prefix(&cand) {
+                runs = cand;
+            } else {
+                i += chunk;
+            }
+        }
+        if chunk == 1 || spawns >= 400 || t0.elapsed().as_secs() >= 240 {
+            break;
+        }
+        chunk = (chunk / 2).max(1);
+    }
+    let mut jj = j.clone();
+    jj.put("prefix", J::obj().set("runs", J::Arr(runs.iter().map(|r| J::u(*r)).collect())));
+    jj.put("prefix_note", J::s("this violation needs process-global residue: the listed worlds (generated from seed/profile) are executed first in the same process, then this world"));
+    jj.put("minimised", J::Bool(false));
+    jj.put("prefix_minimised", J::Bool(true));
+    let _ = std::fs::remove_file(&tmp);
+    std::fs::write(dest, jj.to_pretty()).ok()?;
+    if run_status(exe, &["replay", dest.to_str()?, "--quiet"]).0 != Some(1) {
+        return None;
+    }
+    let _ = vf;
+    println!("prefix minimised to {} earlier world(s) in {} replays", runs.len(), spawns);
     Some(Confirmed { path: dest.to_path_buf(), property, clause, minimised: false })
 }
 
@@ -349,7 +414,7 @@ pub fn cmd_drive(args: &[String]) -> i32 {
     let seed = env_seed();
     let (dw, db) = tier_defaults(&prop, &tier);
     let worlds = arg(args, "--worlds").and_then(|s| s.parse().ok()).or_else(|| std::env::var("VERIF_WORLDS").ok().and_then(|s| s.parse().ok())).unwrap_or(dw);
-    let budget_ms = arg(args, "--budget-ms").and_then(|s| s.parse().ok()).unwrap_or(db);
+    let budget_ms = arg(args, "--budget-ms").and_then(|s| s.parse().ok()).or_else(|| std::env::var("VERIF_BUDGET_S").ok().and_then(|s| s.parse::<u64>().ok()).map(|s| s * 1000)).unwrap_or(db);
     let ncpu = std::thread::available_parallelism().map(|n| n.get()).unwrap_or(1);
     let nworkers = arg(args, "--workers").and_then(|s| s.parse().ok()).unwrap_or(ncpu.min(16));
     let root = out_root();
